@@ -9,7 +9,7 @@ import numpy as np
 from vlib import sigfile
 
 WRITERS = ("invert_freq", "apply_channel_mask", "downsample", "extract_samps", "extract_chans", "extract_bands", "subband", "remove_zerodm",
-           "requantize", "block_to_file", "ts_to_tim", "fs_to_spec", "extract_chans_b2", "extract_bands_b2", "mask_none_2files", "clean_rfi_subrange")
+           "requantize", "block_to_file", "ts_to_tim", "fs_to_spec", "extract_chans_b2", "extract_bands_b2", "mask_none_2files", "clean_rfi_subrange", "dedisp_block_to_file")
 N, NCH = 24, 8
 
 
@@ -135,6 +135,8 @@ def run_writer(writer, d, gulp, nbits=8, seed=0, preexisting=False):
         return [fil.requantize(8, out, **kw)]
     if writer == "block_to_file":
         return [fil.read_block(0, N).to_file(out)]
+    if writer == "dedisp_block_to_file":     # a block that has been dedispersed (its DM differs from the header's): written once, with its final header
+        return [fil.read_block(0, N).dedisperse(5.0).to_file(out)]
     if writer == "ts_to_tim":
         return [fil.collapse(**kw).to_tim(os.path.join(d, "out.tim"))]
     if writer == "fs_to_spec":
